@@ -1024,6 +1024,27 @@ def check_turn_stops_over_wire_cap(ctx: Ctx, tf: TurnFacts, rule_prefix: str = "
         o4 = ex.run(starts=s3, avoid={i for c in tf.sentinel_writes + tf.err_writes for i in tf.cfg.done(c)})
         if o4.reaches(tf.ret):
             silent.append(label)
+    # freshness: the body was under the cap when the iteration started and this iteration's flush carried it over the
+    # cap.  Everything computed before the flush keeps its (stale) value; only a measurement taken after the flush sees
+    # cap+1.  A decision that reads a pre-flush measurement continues once more.
+    stale: list[str] = []
+    for ext, label in ((ECAP, "external cap set"), (None, "external cap unset")):
+        o = ex.run(turn_env(tf, tell=10, ext=ext))
+        starts = []
+        for n in tf.cfg.done(tf.flush_stmt):
+            for en in o.envs_at.get(n, []):
+                en2 = dict(en)
+                for t in tf.tells:
+                    en2[txt(t)] = WCAP + 1
+                starts.append((n, en2))
+        if not starts:
+            raise AnalysisError("producer turn: flush statement not reached under the test environment")
+        if ex.run(starts=starts).reaches(tf.process):
+            stale.append(label)
+    ctx.check(not stale, "RF-BOUND", f"{rule_prefix}:cap-decision-uses-post-flush-size", tf.fi, tf.flush_stmt,
+              ok="when this iteration's flush carries the body over max_response_bytes the turn stops: the continue decision reads a size measured after the flush",
+              bad=f"the continue decision reads a size measured before this iteration's flush ({', '.join(stale)}): after the batch that crosses max_response_bytes "
+              "the loop produces one more, so the turn exceeds the cap by more than its last batch")
     ctx.check(not again, "RF-BOUND", f"{rule_prefix}:stops-over-wire-cap", tf.fi, tf.process,
               ok="once the measured body exceeds max_response_bytes no further batch is produced in this turn (overshoot <= the last batch), with or without an external cap",
               bad=f"with the body already over max_response_bytes the loop calls process() again ({', '.join(again)}): the turn exceeds the cap by more than its last batch")
